@@ -11,7 +11,7 @@
      restrictions a           Selector.LabelRestrictions();  satisfies R L = the label map L meets every restriction. *)
 From Coq Require Import List NArith Bool Permutation.
 From Verif.Common Require Import Labels.
-From Verif.C07 Require Import Model Spec MapLemmas AltProofs IdxProofs LiveProofs StepProofs RestrProofs CandProofs CandExact OrderProofs IterProofs Proofs.
+From Verif.C07 Require Import Model Spec MapLemmas AltProofs IdxProofs LiveProofs StepProofs RestrProofs SliceProofs CandProofs CandExact OrderProofs IterProofs RiMeets NvExact Proofs.
 Import ListNotations.
 Open Scope N_scope.
 
@@ -53,6 +53,28 @@ Print Assumptions c07_model_meets_spec.
 Theorem c07_restrictions_sound : forall a L, eval a L = true -> satisfies (restrictions a) L.
 Proof. exact restrictions_sound. Qed.
 Print Assumptions c07_restrictions_sound.
+
+(* The same at the level of the value SLICES the Go code manipulates (Model.v section 2b): StringSet.Contains is the
+   bisection of sort.Search; on what ConvertToStringSetInPlace produces (sorted, adjacent repeats dropped) it is exactly
+   membership ... *)
+Theorem c07_binary_search_contains : forall s v, contains_bs (to_set_f s) v = true <-> In v s.
+Proof. exact binary_search_contains. Qed.
+Print Assumptions c07_binary_search_contains.
+
+(* ... so the summaries computed with intersectStringSlicesInPlace / unionStringSlicesInPlace as written (in-place sort,
+   order-keeping filter, append) never exclude a true match either.  These are the summaries the index models file
+   selectors by (classify) and iterEndpointCandidates consumes; the driver compares them with the real
+   LabelRestrictions() value for value IN ORDER. *)
+Theorem c07_restrictions_exact_sound : forall a L, eval a L = true -> satisfies (restrictions_f a) L.
+Proof. exact restrictions_f_sound. Qed.
+Print Assumptions c07_restrictions_exact_sound.
+
+(* The sort is essential: binary-searching the second slice as it comes (unions are appended, not sorted) loses
+   values.  Witness  a == "x" && (a == "z" || a == "x")  on {a: x}. *)
+Theorem c07_restrictions_nosort_refuted :
+  exists a L, eval a L = true /\ satisfies_b (restrictions_nosort a) L = false.
+Proof. exact restrictions_nosort_refuted. Qed.
+Print Assumptions c07_restrictions_nosort_refuted.
 
 (* The abstraction "items name their parents by id" is sound: a parent named by a live item is never dropped from
    the parent map and always lists that item as a child (so Go's *parentData pointers cannot go stale and
@@ -100,6 +122,19 @@ Example c07_candidates_example :
   nsort (ri_candidates (fold_left ri_step ops ri_empty) [([97], [120])]) = [1; 3].
 Proof. vm_compute. reflexivity. Qed.
 
+(* The oracles of the two candidate-index streams accept every run of their models: ok_ri (never omits a selector that
+   evaluates to true; yields only selectors in the index) for every AddSelector/DeleteSelector/query history; ok_nv
+   (never omits a stored item whose own labels satisfy the restriction; yields only stored items, none twice) for
+   every history inside the domain - label maps with one value per label, Add never called for a stored id (the Go
+   code panics; callers Remove first). *)
+Theorem c07_ri_model_meets_spec : forall ops, ok_ri [] ops (ri_run ri_empty ops) = true.
+Proof. exact ri_model_meets_spec. Qed.
+Print Assumptions c07_ri_model_meets_spec.
+
+Theorem c07_nv_model_meets_spec : forall ops, nv_valid nv_empty ops -> ok_nv [] ops (nv_run nv_empty ops) = true.
+Proof. exact nv_model_meets_spec. Qed.
+Print Assumptions c07_nv_model_meets_spec.
+
 (* iterEndpointCandidates (SelectorAndNamedPortIndex), the step that actually prunes with the restriction
    summaries: endpoints are indexed by their OWN labels, parents by theirs (both reached by arbitrary Add/Remove
    histories), `kids` is parent -> endpointIDs.  If endpoint e (own labels L, parents ps, each indexed parent listing
@@ -110,7 +145,7 @@ Theorem c07_iter_candidates_superset :
   let x := {| np_eps := fold_left nv_step opsE nv_empty; np_pars := fold_left nv_step opsP nv_empty; np_children := kids |} in
   nlookup e (nv_items (np_eps x)) = Some L ->
   (forall p, In p ps -> nlookup p (nv_items (np_pars x)) <> None -> In e (np_kids x p)) ->
-  Permutation (restrictions a) R' ->
+  Permutation (restrictions_f a) R' ->
   eval a (effective L (map (fun p => odflt [] (nlookup p (nv_items (np_pars x)))) ps)) = true ->
   In e (iter_candidates pest x R').
 Proof. exact iter_candidates_superset. Qed.
@@ -119,7 +154,7 @@ Print Assumptions c07_iter_candidates_superset.
 (* findMostRestrictedLabel ranges over the Go map behind LabelRestrictions(): whatever the iteration order (any
    permutation R' of the restriction map), the selector is filed the same way - so DeleteSelector undoes exactly
    what AddSelector did. *)
-Theorem c07_filing_order_free : forall a R', Permutation (restrictions a) R' -> classify_restr R' = classify a.
+Theorem c07_filing_order_free : forall a R', Permutation (restrictions_f a) R' -> classify_restr R' = classify a.
 Proof. exact classify_order_free. Qed.
 Print Assumptions c07_filing_order_free.
 
@@ -176,7 +211,7 @@ Example c07_iter_example :
   let a := [97] in let b := [98] in let vx := [120] in let vy := [121] in let vz := [122] in
   let x := np_of [(1, ([(a, vx)], [7])); (2, ([(a, vy)], [7])); (3, ([], [8]))] [(7, [(b, vy)]); (8, [(b, vz)])] in
   snd (nv_scan (np_eps x) a {| r_present := true; r_absent := false; r_vals := Some [vx; vz] |}) = [1]
-  /\ iter_candidates pest_exact x (restrictions (SAnd [SEq a vx; SEq b vy])) = [1]
-  /\ iter_candidates pest_exact x (restrictions (SEq b vy)) = [1; 2]
-  /\ iter_candidates pest_exact x (restrictions (SEq b vx)) = [].
+  /\ iter_candidates pest_exact x (restrictions_f (SAnd [SEq a vx; SEq b vy])) = [1]
+  /\ iter_candidates pest_exact x (restrictions_f (SEq b vy)) = [1; 2]
+  /\ iter_candidates pest_exact x (restrictions_f (SEq b vx)) = [].
 Proof. vm_compute. repeat split; reflexivity. Qed.
